@@ -654,7 +654,8 @@ def install_init(e):
         def case(c):
             ghost_conn(c)
             ws = c.alloc("obj", W, {})
-            d = dict(self=ws, fire_cont_frame=c.fresh("bool", "fire"), skip_utf8_validation=c.fresh("bool", "skip"))
+            d = dict(self=ws, fire_cont_frame=c.fresh("bool", "fire"), skip_utf8_validation=c.fresh("bool", "skip"),
+                     get_mask_key=c.fresh(("oneof", [("ext", "keysource"), ("ext", "keysource_str"), "none"]), "keysrc"))
             if not mt:
                 d["enable_multithread"] = False  # the default configuration leaves the parameter to its declared default
             return d
@@ -669,7 +670,15 @@ def install_init(e):
         mt = a.get("enable_multithread", True)
         locks_ok = (is_lock(c.getf(ws, "lock")) and is_lock(c.getf(ws, "readlock")) and c.getf(ws, "lock") is not c.getf(ws, "readlock")) \
             if mt else True
-        return z3.And(zn(c.getf(ws, "sock")), z3.Not(z(c.getf(ws, "connected"), "bool")), z3.BoolVal(locks_ok),
+        same = lambda x, y: (lambda r: z3.BoolVal(r) if isinstance(r, bool) else r)(e.interp.same_value(c, x, y))
+        # the options reach the objects that act on them: the key source (C01), per-fragment delivery (C04) and the validation
+        # switch of both the frame parser and the reassembler (C06)
+        wired = z3.And(z3.BoolVal(c.getf(ws, "get_mask_key") is a.get("get_mask_key")),
+                       same(c.getf(fb, "skip_utf8_validation"), a["skip_utf8_validation"]),
+                       same(c.getf(cf, "skip_utf8_validation"), a["skip_utf8_validation"]),
+                       same(c.getf(cf, "fire_cont_frame"), a["fire_cont_frame"]),
+                       z3.BoolVal(c.getf(ws, "dispatcher") is None))
+        return z3.And(zn(c.getf(ws, "sock")), z3.Not(z(c.getf(ws, "connected"), "bool")), z3.BoolVal(locks_ok), wired,
                       z3.BoolVal(is_lock(c.getf(fb, "lock"))),
                       zn(c.getf(fb, "header")), zn(c.getf(fb, "length")), zn(c.getf(fb, "mask_value")),
                       z3.BoolVal(c.cell(c.getf(fb, "recv_buffer")).data == []),
@@ -677,7 +686,8 @@ def install_init(e):
     e.add(Contract(K + "WebSocket.__init__", cases=[("multithread-default", init_case(True)), ("no-locks", init_case(False))],
                    ensures=init_post, inline_at_calls=True, modifies=lambda c, a: [a["self"]], props=("C08", "C12"),
                    doc="a new WebSocket has no transport, is unconnected, has an empty parser / reassembly state and, in the default "
-                       "configuration (enable_multithread=True), distinct real locks for sending and receiving"))
+                       "configuration (enable_multithread=True), distinct real locks for sending and receiving; the options get_mask_key, "
+                       "fire_cont_frame and skip_utf8_validation reach the connection, the reassembler and both validators"))
 
     def abort_case(c):
         ws = mk_ws(c)
